@@ -1,3 +1,9 @@
 import arena_common
 A = arena_common.pairs()
 PAIRS = [A[k] for k in ("try_alloc_at", "arena_purge", "arena_free")]
+import seg_common
+S = seg_common.pairs()
+PAIRS += [S[k] for k in ("seg_commit_mask", "seg_purge", "seg_commit", "seg_ensure_committed")]
+import os_common
+O = os_common.pairs()
+PAIRS += [O[k] for k in ("page_align", "os_commit_ex", "os_purge_ex")]
